@@ -40,7 +40,7 @@ var C17Multi = []string{"worker_limit", "go_initialisms", "models", "resolver"}
 // C17KnownDefect mirrors KnownDefect of the spec: constructs that trigger known
 // generator defects; pinned to FALSE in the cover, TRUE in one probe row each.
 var C17KnownDefect = []string{"q_nestedNullMix", "q_dirArgPredeclared", "q_funcSyntaxGoEnum", "q_stubKeywordType",
-	"q_argNamedPanic", "q_autobindIntrospection", "q_valueStructCycle3"}
+	"q_argNamedPanic", "q_autobindIntrospection", "q_valueStructCycle3", "q_leadUnderscoreTypeResolver"}
 
 // C17Held mirrors Held of the spec (fixed along an evolution).
 var C17Held = map[string]bool{"execFollow": true, "resolver": true, "models": true, "stub": true}
